@@ -408,7 +408,7 @@ type model struct {
 	// addresses the wallet itself has listed in an earlier GetAccounts answer of this run: it
 	// then holds a file for them (how the listener-discovered files enter the availability clause)
 	observed map[string]bool
-	v3mem map[string][]byte
+	v3mem    map[string][]byte
 }
 
 func newModel(c *Case, root string) *model {
@@ -1334,7 +1334,7 @@ func TestCheck(t *testing.T) {
 	}
 	rec.Corpus(t)
 	setSteps(10)
-	rec.Rapid(t, "wallet", rec.N(400, 3000), func(rt *rapid.T) {
+	rec.Rapid(t, "wallet", rec.N(400, 6000), func(rt *rapid.T) {
 		c, near := genCase(rt)
 		classes, nt := analyze(c, near)
 		k.Check(rt, c, nt, classes...)
